@@ -28,7 +28,7 @@ const (
 
 func init() {
 	register("C19", "other", "T7 Pairing, T2 Dominates (loop-aware), T4 GuardedBy (normalised loop/exit conditions), AST provenance through single-definition locals, T6 use audit",
-		"Decides the shape parent selection depends on. ChooseParents: the returned slice is one local that starts empty, receives the existing parents (parameter 0, in order, via one append of existingParents...) exactly once before anything else and on every path to return, and afterwards only single-element appends, never an indexed store; the option set is options.Set() of parameter 1 and is only erased from, sliced and measured (so it stays a subset of the offered options); every existing parent is erased from it before the first slice; each appended element is curOptions[k] where curOptions is the slice of the option set taken in the same iteration and k is the result of SearchStrategy.Choose applied to that same slice, by the strategy of this iteration (strategies[i] of the counted loop, or the range value); the append is paired both ways with erasing the same element (no parent is repeated, no option is lost); at most one append per iteration, iterations bounded by i < len(strategies) with i counted from 0 by 1; Choose and the slice are reached only with a non-empty option set, re-established after every erase; every return is reached only over an edge saying the strategies are exhausted or the option set is empty (the loop stops early only when no options remain). MetricStrategy.Choose: the returned index is one local initialised to 0; it is assigned only the key of the range over the options parameter and always together with the running maximum, which is assigned only the metric of the option of that same iteration (metricFn applied to the range value); the update happens only on weight > max (>= accepted) or on max == 0 with an unsigned metric type, the skip only on an edge implying weight <= max; every option is evaluated (no continue/break/early return before the loop is done). RandomStrategy.Choose returns rand.Intn(len(options)); neither strategy writes through or leaks its options parameter. NOT decided: that the chosen index has maximal metric as a value fact (it follows from the decided shape for a deterministic metricFn, by the usual running-maximum invariant, but the invariant is not machine-checked), set semantics of hash.Events.Set / EventsSet.Slice / EventsSet.Erase, and behaviour of foreign SearchStrategy implementations.",
+		"Decides the shape parent selection depends on. ChooseParents: the returned slice is one local that starts empty, receives the existing parents (parameter 0, in order, via one append of existingParents...) exactly once before anything else and on every path to return, and afterwards only single-element appends, never an indexed store; the option set is options.Set() of parameter 1 and is only erased from, sliced and measured (so it stays a subset of the offered options); every existing parent is erased from it before the first slice; each appended element is curOptions[k] (directly or through a single-definition local) where curOptions is the slice of the option set taken in the same iteration and k is the result of SearchStrategy.Choose applied to that same slice (held in a local or used in place), by the strategy of this iteration (strategies[i] of the counted loop, or the range value); the append is paired both ways with erasing the same element (no parent is repeated, no option is lost); at most one append per iteration, iterations bounded by i < len(strategies) with i counted from 0 by 1; Choose and the slice are reached only with a non-empty option set, re-established after every erase; every return is reached only over an edge saying the strategies are exhausted or the option set is empty (the loop stops early only when no options remain). MetricStrategy.Choose: the returned index is one local initialised to 0; it is assigned only the index of the loop over the options parameter (range key, or the counter of for i := 0; i < len(options); i++) and always together with the running maximum, which is assigned only the metric of the option of that same iteration (metricFn applied to the range value or options[i], possibly through a local); the update happens only on weight > max (>= accepted) or on max == 0 with an unsigned metric type, the skip only on an edge implying weight <= max; every option is evaluated (no continue/break/early return before the loop is done). RandomStrategy.Choose returns rand.Intn(len(options)); neither strategy writes through or leaks its options parameter. NOT decided: that the chosen index has maximal metric as a value fact (it follows from the decided shape for a deterministic metricFn, by the usual running-maximum invariant, but the invariant is not machine-checked), set semantics of hash.Events.Set / EventsSet.Slice / EventsSet.Erase, and behaviour of foreign SearchStrategy implementations.",
 		[]string{"hash.Events.Set, hash.EventsSet.Slice and hash.EventsSet.Erase implement set semantics (Slice lists exactly the members, Erase removes exactly its arguments)",
 			"SearchStrategy implementations return an index in [0,len(options)) and do not modify the slices passed to them (checked for the two implementations in emitter/ancestor only)",
 			"metricFn is deterministic during one Choose call"},
@@ -139,13 +139,14 @@ func c19Resolve(f *core.FuncInfo, e ast.Expr, use core.Point) ast.Expr {
 	return e
 }
 
-// c19IndexOf: e resolves to X[K] with X and K plain variables.
-func c19IndexOf(f *core.FuncInfo, e ast.Expr, use core.Point) (x, k *types.Var) {
+// c19ElemOf: e resolves to X[K] with X a plain variable; returns X and the index expression K resolved
+// through single-definition locals (so `k := g(); x[k]` and `x[g()]` give the same call node).
+func c19ElemOf(f *core.FuncInfo, e ast.Expr, use core.Point) (x *types.Var, k ast.Expr) {
 	ix, ok := c19Resolve(f, e, use).(*ast.IndexExpr)
 	if !ok {
 		return nil, nil
 	}
-	return varOf(f, ix.X), varOf(f, core.StripConv(f.Info(), ix.Index))
+	return varOf(f, ix.X), c19Resolve(f, ix.Index, use)
 }
 
 // c19Use is one occurrence of a variable with its syntactic role.
@@ -659,20 +660,20 @@ func c19Result(c *core.Ctx) {
 	}
 	for _, e := range elems {
 		pos := e.a.Stmt.Pos()
-		cur, k := c19IndexOf(f, e.elem, e.a.Pt)
-		if cur == nil || k == nil {
+		// the appended value is cur[index], directly or through single-definition locals (chosen := cur[k]),
+		// the index being a variable or an expression
+		cur, kExpr := c19ElemOf(f, e.elem, e.a.Pt)
+		if cur == nil || kExpr == nil {
 			c.Undecided("appended element", "provenance", pos, "the appended value "+exprStr(e.elem)+" is not of the form options[index] over single-definition locals: cannot tell that it is an offered option")
 			continue
 		}
 		curDef, ok1 := c19SingleDef(f, cur)
-		kDef, ok2 := c19SingleDef(f, k)
-		var slice, choose *ast.CallExpr
+		var slice *ast.CallExpr
 		if ok1 {
 			slice = isCallTo(f, curDef.RHS, c19SetSlice)
 		}
-		if ok2 {
-			choose = isCallTo(f, kDef.RHS, c19IfaceCh)
-		}
+		// the index is the result of Choose, held in a single-definition local or used in place
+		choose := isCallTo(f, kExpr, c19IfaceCh)
 		okSlice := slice != nil && varOf(f, ast.Unparen(slice.Fun).(*ast.SelectorExpr).X) == set
 		c.Check(okSlice, "chosen element comes from the option set", "provenance", pos, "the appended element is indexed from optionSet.Slice()", "the appended element is not taken from the current option set: an option that was not offered, an existing parent or an already chosen option can be added")
 		okIdx := choose != nil && len(choose.Args) == 2 && varOf(f, choose.Args[1]) == cur
@@ -680,9 +681,16 @@ func c19Result(c *core.Ctx) {
 		if !okSlice || !okIdx {
 			continue
 		}
+		var chooseCS *core.CallSite
+		for _, cs := range f.CallsTo(c19IfaceCh) {
+			if cs.Call == choose {
+				chooseCS = cs
+			}
+		}
+		c.Need(chooseCS != nil, "Choose call site")
 		// the slice is taken and the choice made in this iteration, slice first
-		o1, _ := precedesLocally(f, []core.Point{curDef.Pt}, kDef.Pt)
-		o2, _ := precedesLocally(f, []core.Point{kDef.Pt}, e.a.Pt)
+		o1, _ := precedesLocally(f, []core.Point{curDef.Pt}, chooseCS.Pt)
+		o2, _ := precedesLocally(f, []core.Point{chooseCS.Pt}, e.a.Pt)
 		c.Check(o1 && o2, "slice, choice and append happen in one iteration", "T2 Dominates (loop)", pos, "every path to the append re-slices the option set and asks the strategy first", "the append can use a slice or an index left over from an earlier iteration: an erased option can be added again")
 		c19Audit(c, f, cur, "options slice", "T6 use audit", func(kd string) bool {
 			return kd == "def" || kd == "index" || kd == "len" || kd == "arg:"+c19IfaceCh+":1"
@@ -702,8 +710,8 @@ func c19Result(c *core.Ctx) {
 		var mine []core.Point
 		for _, er := range erases {
 			if len(er.Call.Args) == 1 && !er.Call.Ellipsis.IsValid() {
-				x, kk := c19IndexOf(f, er.Call.Args[0], er.Pt)
-				if x == cur && kk == k {
+				x, kk := c19ElemOf(f, er.Call.Args[0], er.Pt)
+				if x == cur && kk != nil && isCallTo(f, kk, c19IfaceCh) == choose {
 					mine = append(mine, er.Pt)
 					pairedErase[er] = true
 				}
@@ -733,13 +741,6 @@ func c19Result(c *core.Ctx) {
 			"Choose can be called with no options left (its result then indexes an empty slice): "+f.DescribePath(witNE))
 
 		// loop shape: which strategy, how many appends
-		var chooseCS *core.CallSite
-		for _, cs := range f.CallsTo(c19IfaceCh) {
-			if cs.Call == choose {
-				chooseCS = cs
-			}
-		}
-		c.Need(chooseCS != nil, "Choose call site")
 		loopStmt := enclosingLoop(f, pos)
 		c.Need(loopStmt != nil, "the single-element append is inside a loop over the strategies")
 		head, _ := f.LoopOf(loopStmt)
@@ -884,30 +885,11 @@ func c19Metric(c *core.Ctx) {
 		c.Need(v != nil && (idx == nil || idx == v), "every return yields the same tracked index variable")
 		idx = v
 	}
-	// the loop over the options
-	var loop *ast.RangeStmt
-	f.InspectOwn(func(n ast.Node) bool {
-		if rs, ok := n.(*ast.RangeStmt); ok && varOf(f, rs.X) == pOpts {
-			c.Need(loop == nil, "exactly one range over the options")
-			loop = rs
-		}
-		return true
-	})
-	c.Need(loop != nil && loop.Key != nil, "a range over the options parameter with a key variable")
-	key := varOf(f, loop.Key)
-	var val *types.Var
-	if loop.Value != nil {
-		val = varOf(f, loop.Value)
-	}
-	c.Need(key != nil, "range key variable")
-	for _, v := range []*types.Var{key, val} {
-		if v != nil {
-			n, addr := c19AssignCount(f, v)
-			c.Need(n == 1 && !addr, "range variables are not reassigned")
-		}
-	}
-	head, _ := f.LoopOf(loop)
-	done, complete := loopDone(f, loop)
+	// the loop over the options: a range with a key, or `for i := 0; i < len(options); i++`
+	it, curAt := c20SliceIteration(c, f, pOpts, "the options parameter")
+	loop, key, val := it.Stmt, it.Index, it.Value
+	c.Need(key != nil, "the loop over the options has an index variable (range key or counter)")
+	head, done, complete := it.Head, it.Done, it.Complete
 	c.Need(head != nil && done != nil, "loop head/exit blocks")
 
 	// assignments to the index: initial zero + updates with the range key
@@ -966,16 +948,7 @@ func c19Metric(c *core.Ctx) {
 	wDef, _ := c19SingleDef(f, wV)
 	wCall := ast.Unparen(wDef.RHS).(*ast.CallExpr)
 	// weight is the metric of the option of this iteration
-	okArg := false
-	if len(wCall.Args) == 1 {
-		arg := ast.Unparen(wCall.Args[0])
-		if val != nil && varOf(f, arg) == val {
-			okArg = true
-		}
-		if ix, ok := arg.(*ast.IndexExpr); ok && varOf(f, ix.X) == pOpts && varOf(f, ix.Index) == key {
-			okArg = true
-		}
-	}
+	okArg := len(wCall.Args) == 1 && curAt(wCall.Args[0], wDef.Pt)
 	c.Check(okArg, "weight is the metric of the current option", "provenance", wDef.Stmt.Pos(), "weight = metricFn(option at the range position)", "the compared weight is not the metric of the option at the recorded position")
 	// all assignments to max: zero init before the loop, `max = weight` inside
 	okMaxInit := false
